@@ -13,3 +13,63 @@ Theorem C18_pool_released_at_reset : forall c,
   ctx_reset c = mkCtx [] false false false false [] 0%Z None false [] [] 0 (rev (map EvRelease (ipv c)) ++ elog c).
 Proof. exact reset_state. Qed.
 Print Assumptions C18_pool_released_at_reset.
+
+(* ---- over whole renders and histories (Proofs/HistoryProofs.v) ---- *)
+From Coq Require Import String.
+From DT Require Import Model.Mods Model.VCase Proofs.HistoryProofs.
+
+(* an included template (include depth > 0 on entry) never runs deferred functions: the include
+   depth is restored, the log gains no EvRun, the deferred list only grows -- by exactly the
+   EvDefer events logged -- and so do the pooled objects *)
+Theorem C18_deferred_run_at_depth_zero_only : forall flits lookup budget depth t c c' o e,
+  (0 < wd c)%nat -> render_inc flits lookup budget depth t c = Some (c', o, e) ->
+  wd c' = wd c /\
+  exists evs, elog c' = evs ++ elog c /\ no_run evs /\
+              dfr c' = dfr c ++ defers evs /\ ipv c' = ipv c ++ acquires evs.
+Proof. exact included_never_runs_deferred. Qed.
+Print Assumptions C18_deferred_run_at_depth_zero_only.
+
+(* the same for write() itself, for any include renderer with that property *)
+Theorem C18_inner_write_never_runs_deferred : forall flits lookup budget inc,
+  (forall t c c' o e, inc t c = Some (c', o, e) -> FrameIn c c') ->
+  forall t c w c' w' e,
+    (0 < wd c)%nat -> write_tpl flits lookup budget inc t c w = Out c' w' e -> Frame c c'.
+Proof. exact write_tpl_inner. Qed.
+Print Assumptions C18_inner_write_never_runs_deferred.
+
+(* the outermost render: on success every deferred function -- pending from before or registered
+   during the render at any include depth ([defers evs]: the EvDefer events, in order) -- runs
+   exactly once, in registration order, after the last node (stamped with the number of writes),
+   and the list is empty afterwards; on an error none runs and all stay registered *)
+Theorem C18_deferred_each_once : forall flits lookup budget depth t c w c' w' e,
+  wd c = O -> render flits lookup budget depth t c w = Out c' w' e ->
+  exists evs, no_run evs /\ wd c' = O /\ ipv c' = ipv c ++ acquires evs /\
+    match e with
+    | None => elog c' = rev (map (fun t => EvRun t (w_n w')) (dfr c ++ defers evs)) ++ evs ++ elog c /\ dfr c' = []
+    | Some _ => elog c' = evs ++ elog c /\ dfr c' = dfr c ++ defers evs
+    end.
+Proof. exact render_deferred. Qed.
+Print Assumptions C18_deferred_each_once.
+
+(* between two resets the context holds exactly the pooled objects its renders acquired ... *)
+Theorem C18_pools_held_between_resets : forall hc steps c c',
+  forallb (fun s => negb (is_reset s)) steps = true -> wd c = O ->
+  final_ctx hc steps c = Some c' ->
+  ipv c' = ipv c ++ hist_pools hc steps c /\ wd c' = O.
+Proof. exact pools_held. Qed.
+Print Assumptions C18_pools_held_between_resets.
+
+(* ... and the reset that ends the segment gives each of them back exactly once, in acquisition
+   order, and nothing else; afterwards nothing is held *)
+Theorem C18_reset_releases_each_once : forall hc mid c',
+  forallb (fun s => negb (is_reset s)) mid = true ->
+  final_ctx hc mid ctx_new = Some c' ->
+  rev (elog (ctx_reset (clear_log c'))) = map EvRelease (hist_pools hc mid ctx_new) /\
+  ipv (ctx_reset (clear_log c')) = [].
+Proof. exact acquired_released_at_reset. Qed.
+Print Assumptions C18_reset_releases_each_once.
+
+Example C18_bookkeeping_example :
+  check_history hc_ex steps_bk ctx_new = [HOk; HOk; HOk; HOk] /\
+  hist_pools hc_ex (firstn 2 steps_bk) ctx_new = [Bs "p1"].
+Proof. exact history_bookkeeping_example. Qed.
